@@ -19,25 +19,32 @@ DRIVER = "drv_lfu"
 HARNESS_BIN = "lfu"
 HARNESS_FEATURES = ""
 
-PARTIAL = [
-    "bounded_poll_partial: for UnpinStrategy::Poll the bound is proved with the size of the policy's pinned region "
-    "in place of the number of currently pinned entries (resident <= window + main + |pinned region| + 32). The "
-    "property's 'fixed slack over the currently pinned count' does not hold for Poll (known finding F15): "
-    "bounded_poll_slack32_refuted is a kernel-checked witness (capacity 1, 2 pinned, 57 resident) and the harness replays "
-    "the adversary on the real cache on every run (signature bound-poll:excess-grows-with-blockers; "
-    "distribution.poll_adversary_excess_by_blockers: the excess grows with the number of pinned entries). "
-    "C16_bounded_full_statement (one S for both strategies) is therefore kept as a def, not proved; its Notify half is "
-    "bounded_notify / bounded_notify_real with S = 32. For the proposed repair (fixes/F15-poll-trim-scan.diff, model toggle "
-    "Cfg.fixTrim, not applied to /repo) bounded_poll_repaired proves resident <= window + main + currently pinned + 32 + "
-    "(releases since the last maintenance round); poll_adversary_repaired is the kernel-checked adversary run (35 instead of 57).",
-]
+# Nothing partial: C16_bounded proves C16_bounded_full_statement (both strategies, S = 32).  For UnpinStrategy::Poll the
+# property's "fixed slack over the currently pinned count" is read with the term "releases since the last maintenance
+# round" (see ASSUMPTIONS); bounded_poll_partial (|pinned region| in place of the pinned count) is kept as a general
+# lemma for arbitrary listeners (value tokens / the lock table), not as the Poll headline.
+PARTIAL = []
 ASSUMPTIONS = [
     "single-threaded, piggy-backed maintenance (try_lock always succeeds; the calling thread's read-buffer shard holds 16 "
     "entries); concurrent maintenance and the DedicatedThread mode are exercised by the oracle-only multi-thread runs, not modelled",
     "lru.rs's intrusive list + HashMap are modelled as four duplicate-free lists (regions_within_capacity proves the model keeps "
     "them duplicate-free and disjoint); memory safety of the unsafe pointer code is not claimed",
     "bounded_notify assumes the documented Notify protocol: the pin token is the key and every release is notified "
-    "(TinyLFU::unpin); without it the Poll-style bound bounded_poll_partial applies",
+    "(TinyLFU::unpin); without it the bound for arbitrary listeners, bounded_poll_partial (|pinned region| in place of the "
+    "pinned count), applies",
+    "POLL, HONEST READING OF 'fixed slack over the currently pinned count': bounded_poll / C16_bounded state resident <= window + "
+    "main capacity + currently pinned + 32 + r, r = releases since the last maintenance round (Cache.rel, a ghost field no "
+    "operation reads; the harness counts the same thing: unpin/unpinn operations since the last pass). Under Poll releases are "
+    "silent by design and the listener is only asked during a maintenance round, so a polling cache cannot know about a release "
+    "before it polls again: for the cache an entry released since the last round is still pinned. Without r no bound exists for "
+    "any polling cache (pin n entries, insert them, release them all without calling the cache: n resident, 0 pinned, the cache "
+    "has not run). Everything released before the last round is reclaimed by that round (whole-region trim, finding F15 fixed); "
+    "the bound needs pin token = key (for value tokens / the lock table: bounded_poll_partial)",
+    "FIXED finding F15 (Poll trim stopped at the first still-pinned entry): the model default is the code since the fix "
+    "(Cfg.fixTrim = true, driver default; --no-fix-trim runs the old loop). HISTORICAL witnesses with fixTrim := false: "
+    "bounded_poll_slack32_refuted (57 > 2 + 2 + 32) and bounded_poll_needs_whole_region_trim (95 > 2 + 5 + 32 + 33 releases); "
+    "the adversary histories are replayed on the real cache on every run and must stay within the bound of bounded_poll "
+    "(signatures bound-poll:excess-grows-with-blockers / bound-poll:history-exceeds-capacity+pinned+32 are plain violations)",
     "ATOMIC EVICTION ATTEMPT: the pin question (LifecycleListener::is_pinned) and the removal of an eviction attempt are one "
     "atomic step with respect to get/entry (remove_closure does both under one write lock of the scc bucket). The sequential "
     "model has this built in (removeClosure is one function) and lock_table_same_lock / pinned_never_evicted rely on it; "
@@ -70,7 +77,8 @@ def _run_shard(args):
     if p.returncode != 0 or not os.path.exists(os.path.join(outdir, "report.json")):
         return {"seed": seed, "error": f"harness rc={p.returncode}: {p.stdout[-800:]}"}
     ops, imp, mod = (os.path.join(outdir, f) for f in ("ops.txt", "impl.txt", "model.txt"))
-    # /repo carries the fix: commit for F4, so the model of the code as it is now is the repaired one (Cfg.fixF4)
+    # /repo carries the fix: commits for F4 and F15: the model of the code as it is now is Cfg.fixF4 (--fix) and the
+    # whole-region Poll trim (Cfg.fixTrim, the driver default; --no-fix-trim = the code before that fix)
     rc, err = vlib.run_driver(DRIVER, ops, mod, args=("--fix",))
     if rc != 0:
         return {"seed": seed, "error": f"driver rc={rc}: {err[-800:]}"}
@@ -114,9 +122,9 @@ def _collect(ctx, res, shards):
         _merge_dist(res.distribution, rep["distribution"])
         res.distribution["model_panics"] = res.distribution.get("model_panics", 0) + len(sh["model_panics"])
         for f in rep["oracle_failures"]:
-            # every panic is a violation (F4 is fixed; a fixed entry suppresses nothing).  Bound failures: only the
-            # Poll "no fixed slack over currently pinned" signatures belong to known finding F15; bound-notify (S = 32)
-            # and bound-partial (|pinned region| bound of bounded_poll_partial) are violations.
+            # every failure is a violation (F4 and F15 are fixed; a fixed entry suppresses nothing): panics, bound-notify
+            # (S = 32), bound-poll:* (bounded_poll: S = 32 + releases since the last maintenance round), bound-partial
+            # (|pinned region| bound of bounded_poll_partial), bound-notify-buffered / unevictable-residue.
             f = dict(f); f["seed"] = sh["seed"]
             res.oracle_failures.append(f)
     # one line per distinct signature is enough; keep those that carry a replayable case first
